@@ -24,7 +24,7 @@ From Nexus Require Import Conc.Stall.
 Import ListNotations.
 Local Open Scope N_scope.
 
-Inductive retry_end : Type := Delivered | Cancelled | Lost | OutOfFuel.
+Inductive retry_end : Type := Delivered | Cancelled | Lost | OutOfFuel | TimedOut.
 
 Section YieldRetry.
 
@@ -202,6 +202,67 @@ Theorem never_room_ends_at_retry_total : forall d D,
 Proof.
   intros d D. unfold run, retry_total. pose proof (loop_never_room_instant 64 d D 0) as L.
   destruct (loop true (fun _ => false) 64 d D 0 true) as [tr r]. exact L.
+Qed.
+
+(** ** The call's own timeout
+
+    A CALL with a router-handled timeout has a timer goroutine which, when it
+    expires, cancels the call (killnowait, wamp.error.timeout): the call leaves
+    the tables, the callee is sent an INTERRUPT.  [tmo]: the instant, relative
+    to the YIELD, at which that timer expires.  [stop]: the first attempt of a
+    final YIELD stops the timer also when it asks for a retry ([true] is
+    /repo's code; otherwise only the clean-up, which the retry skips, stops
+    it). *)
+Section WithTimer.
+
+Variable stop : bool.
+Variable room : N -> bool.
+Variable tmo : option N.
+
+Definition fired (armed : bool) (e : N) : bool :=
+  armed && match tmo with Some x => x <=? e | None => false end.
+
+Fixpoint loop_t (fuel : nat) (d D e : N) (armed : bool) : N * retry_end :=
+  match fuel with
+  | O => (e, OutOfFuel)
+  | S f =>
+      let e' := e + d in
+      if fired armed e' then (e', TimedOut)
+      else if room e' then (e', Delivered)
+      else if D <=? e' then (e', Cancelled)
+      else loop_t f (2 * d) D e' armed
+  end.
+
+Definition run_t (d D : N) : N * retry_end :=
+  if room 0 then (0, Delivered) else loop_t 64 d D 0 (negb stop).
+
+End WithTimer.
+
+Lemma loop_t_stopped room tmo : forall fuel d D e,
+  loop_t room tmo fuel d D e false = snd (loop true room fuel d D e true).
+Proof.
+  induction fuel; intros d D e; cbn [loop_t loop negb fired andb]; [reflexivity|].
+  destruct (room (e + d)); [reflexivity|]. destruct (D <=? e + d); [reflexivity|].
+  rewrite IHfuel. destruct (loop true room fuel (2 * d) D (e + d) true). reflexivity.
+Qed.
+
+(** Once the callee has answered finally the call's timeout has no effect on
+    what becomes of the RESULT, whenever it would have expired. *)
+Theorem call_timeout_irrelevant_once_answered : forall room tmo d D,
+  run_t true room tmo d D = snd (run true room d D).
+Proof.
+  intros room tmo d D. unfold run_t, run. destruct (room 0); [reflexivity|]. cbn [negb].
+  rewrite loop_t_stopped. destruct (loop true room 64 d D 0 true). reflexivity.
+Qed.
+
+(** If only the clean-up stops the timer, a timeout that expires no later
+    than the first retry takes the call away although the callee has answered:
+    FALSE for every behaviour of the caller. *)
+Theorem retried_yield_times_out_without_stop : forall room d D x,
+  room 0 = false -> x <= d -> run_t false room (Some x) d D = (d, TimedOut).
+Proof.
+  intros room d D x H0 Hx. unfold run_t. rewrite H0. cbn [negb loop_t fired andb N.add].
+  apply N.leb_le in Hx. rewrite Hx. reflexivity.
 Qed.
 
 (** Resume instants (microseconds after the YIELD) for which
